@@ -151,7 +151,10 @@ func runWorld(t *testing.T, r *simkit.Run) {
 		}
 		s := &simkit.Scheduler{R: r, MaxSteps: c.MaxSteps, Collect: w.collect, Invariant: w.invariant,
 			StepTime: func() time.Duration { return gridStep },
-			Done:     func() bool { return w.opsLeft <= 0 && len(w.outstanding) == 0 && r.Steps > 40 },
+			// (a proposal future is not guaranteed to resolve, see the hung-future probe; do not wait for stragglers forever)
+			Done: func() bool {
+				return w.opsLeft <= 0 && r.Steps > 40 && (len(w.outstanding) == 0 || r.Steps-w.lastProposeStep > 120)
+			},
 			Idle:     func() time.Duration { return tickInterval }}
 		s.Run()
 		if !r.Failed() && r.InfraErr == "" {
@@ -287,6 +290,10 @@ func errName(err error) string {
 func (w *world) onProposalDone(op *propOp) {
 	delete(w.outstanding, op.id)
 	w.r.Logf("  op%d n%d/s%d %q -> %s index=%d term=%d", op.id, op.node, op.slot, op.payload, errName(op.err), op.res.Index, op.res.Term)
+	if op.final {
+		w.finalPending[op.slot] = false
+		w.finalAcked[op.slot] = w.finalAcked[op.slot] || op.err == nil
+	}
 	if op.err != nil {
 		w.r.Probe("propose.failed:" + errName(op.err))
 		return
@@ -724,6 +731,9 @@ func (w *world) propose(slot multiraft.SlotID, final bool) {
 	}
 	if !final {
 		w.opsLeft--
+		w.lastProposeStep = w.r.Steps
+	} else {
+		w.finalPending[slot] = true
 	}
 	op := &propOp{id: w.nextOp, node: target, inc: n.inc.Load(), slot: slot, payload: body, step: w.r.Steps, final: final}
 	w.outstanding[op.id] = op
@@ -807,7 +817,7 @@ func (w *world) finalPhase() {
 	electionTO := time.Duration(w.cfg.ElectionTick) * tickInterval
 	deadline := w.now() + finalElectionTimeouts*electionTO
 	healedAt := w.now()
-	proposed := map[multiraft.SlotID]bool{}
+	w.finalAcked, w.finalPending = map[multiraft.SlotID]bool{}, map[multiraft.SlotID]bool{}
 	converged := false
 	for iter := 0; iter < 60000 && w.now() < deadline; iter++ {
 		idle, ok := w.benignStep()
@@ -820,13 +830,9 @@ func (w *world) finalPhase() {
 		// nothing in flight: one probe proposal per slot once a leader exists, then check convergence
 		all := true
 		for _, m := range w.slots {
-			if !proposed[m.id] {
-				if w.leaderOf(m.id) != 0 {
-					before := w.nextOp
+			if !w.finalAcked[m.id] {
+				if !w.finalPending[m.id] && w.leaderOf(m.id) != 0 {
 					w.propose(m.id, true)
-					if _, ok := w.outstanding[w.nextOp]; ok && w.nextOp > before {
-						proposed[m.id] = true
-					}
 				}
 				all = false
 				continue
@@ -835,7 +841,7 @@ func (w *world) finalPhase() {
 				all = false
 			}
 		}
-		if all && len(w.outstanding) == 0 {
+		if all {
 			converged = true
 			break
 		}
@@ -851,8 +857,28 @@ func (w *world) finalPhase() {
 		if w.now()-healedAt <= 10*electionTO {
 			r.Probe("final.converged_within_10_election_timeouts")
 		}
+		// Everything is applied everywhere and nothing is in flight: a proposal
+		// future that is still pending on a live incarnation will never resolve.
+		// Not part of C12's statement: counted, and flagged only on request.
+		for _, id := range simkit.SortedIntKeys(w.outstanding) {
+			op := w.outstanding[id]
+			if w.nodes[op.node].inc.Load() != op.inc {
+				continue
+			}
+			r.Probe("future.never_resolved")
+			r.Logf("  future never resolved: op%d n%d/s%d %q accepted at step %d", op.id, op.node, op.slot, op.payload, op.step)
+			if os.Getenv("RAFTSIM_FLAG_HUNG_FUTURES") == "1" {
+				w.fail("future-never-resolved", "", fmt.Sprintf("op%d: proposal %q accepted by n%d/s%d at step %d has no terminal result although the cluster is healed, converged and idle",
+					op.id, op.payload, op.node, op.slot, op.step))
+				return
+			}
+		}
 	} else {
 		r.Probe("final.not_converged")
+		for _, id := range simkit.SortedIntKeys(w.outstanding) {
+			op := w.outstanding[id]
+			r.Logf("  still outstanding: op%d n%d/s%d %q proposed at step %d (inc %d, node inc now %d)", op.id, op.node, op.slot, op.payload, op.step, op.inc, w.nodes[op.node].inc.Load())
+		}
 		progress = w.leaderProgress()
 		if r.Failed() || r.InfraErr != "" {
 			return
